@@ -41,7 +41,7 @@ THEOREMS = [
     'C02.Source.gen_dmag2_body_eq_model', 'C02.Source.gen_dmag2C_eq_model', 'C02.Source.gen_real_types_double',
     'C02.Source.gen_dvectWrap_eq_model', 'C02.Source.gen_dmagWrap_eq_model', 'C02.Source.gen_sysDvect_eq_model',
     'C02.Source.gen_sysDmag_eq_model', 'C02.Source.gen_pbcSetter_eq_model', 'C02.Source.gen_getters_live',
-    'C02.Source.gen_box_reference_default', 'C02.Source.gen_displacement_eq_model',
+    'C02.Source.gen_box_reference_default', 'C02.Source.gen_displacement_eq_model', 'C02.Source.gen_exports_direct',
     # round 5: API level (argument forms, flags, refusals) and end-to-end statements about the generated definitions
     'C02.dvectApi_eq_arr', 'C02.dvectApi_ok_iff', 'C02.dvectApi_type_iff', 'C02.dvectApi_flag_forms', 'C02.dmag2Api_eq',
     'C02.api_dvect_end_to_end', 'C02.api_dmag_end_to_end', 'C02.displacement_ok_iff', 'C02.api_displacement_end_to_end',
@@ -3302,6 +3302,58 @@ def _system_method(a, cls, name, callee, where):
     return 'decide (r.length = 1)'
 
 
+def _only_these(a, tree, allowed_defs, where):
+    """the module consists of a docstring, imports and exactly the named functions: nothing else can rebind or wrap them."""
+    seen = []
+    for n in tree.body:
+        if isinstance(n, (a.Import, a.ImportFrom)):
+            for al in n.names:
+                if (al.asname or al.name).split('.')[0] in allowed_defs:
+                    _terr(f'{where}: an import binds the name {al.asname or al.name}')
+            continue
+        if isinstance(n, a.Expr) and isinstance(n.value, a.Constant) and isinstance(n.value.value, str):
+            continue
+        if isinstance(n, a.FunctionDef) and n.name in allowed_defs:
+            seen.append(n.name)
+            continue
+        _terr(f'{where}: unexpected top-level statement {a.unparse(n)[:80]}')
+    if sorted(seen) != sorted(allowed_defs):
+        _terr(f'{where}: top-level functions {seen}, expected {sorted(allowed_defs)}')
+
+
+def _exports(a):
+    """atomman/core/__init__.py binds dvect, dmag, displacement to the functions of their modules and never rebinds them."""
+    tree = a.parse(cm.source('atomman/core/__init__.py'))
+    want = {'dvect': 'dvect', 'dmag': 'dmag', 'displacement': 'displacement'}
+    bound = {}
+    for n in tree.body:
+        names = []
+        if isinstance(n, a.ImportFrom):
+            for al in n.names:
+                nm = al.asname or al.name
+                if nm in want:
+                    if nm in bound or n.level != 1 or n.module != want[nm] or al.name != nm:
+                        _terr(f'core/__init__.py: {nm} is bound by `{a.unparse(n)}`')
+                    bound[nm] = True
+            continue
+        if isinstance(n, a.Import):
+            names = [(al.asname or al.name).split('.')[0] for al in n.names]
+        elif isinstance(n, (a.Assign, a.AugAssign, a.AnnAssign)):
+            tg = n.targets if isinstance(n, a.Assign) else [n.target]
+            names = [x.id for t in tg for x in a.walk(t) if isinstance(x, a.Name)]
+        elif isinstance(n, (a.FunctionDef, a.ClassDef)):
+            names = [n.name]
+        elif isinstance(n, a.Expr) and isinstance(n.value, a.Constant):
+            continue
+        else:
+            _terr(f'core/__init__.py: unexpected top-level statement {a.unparse(n)[:80]}')
+        for nm in names:
+            if nm in want:
+                _terr(f'core/__init__.py: {nm} is rebound by `{a.unparse(n)[:80]}`')
+    if set(bound) != set(want):
+        _terr(f'core/__init__.py: not all of dvect / dmag / displacement are imported from their modules: {sorted(bound)}')
+
+
 def translate():
     import ast as a
     out = []
@@ -3332,6 +3384,7 @@ def translate():
             tree = a.parse(py)
         except SyntaxError as e:
             _terr(f'{fname}: not parseable after removing the declarations: {e}')
+        _only_these(a, tree, [kname, wname], fname)
         kfn = _fn(tree, kname, fname)
         K_ = _Kernel(kfn, types.get(kname, {}), f'{fname}:{kname}', pref)
         A(f'/-! ### `{kname}` ({fname}) -/')
@@ -3416,6 +3469,8 @@ def translate():
                 dimp[al.asname or al.name] = (n.module, n.level, al.name)
     if dimp.get('dvect') != (None, 1, 'dvect'):
         _terr(f'displacement.py: dvect is imported as {dimp.get("dvect")}')
+    _only_these(a, dtree, ['displacement'], 'displacement.py')
+    _exports(a)
     dfn = _fn(dtree, 'displacement', 'displacement.py')
     dparams = [x.arg for x in dfn.args.args]
     if dparams != ['system_0', 'system_1', 'box_reference'] or len(dfn.args.defaults) != 1 or dfn.args.kwonlyargs:
@@ -3501,6 +3556,9 @@ def translate():
     A('/-! ### `displacement` (atomman/core/displacement.py); the wire form of `None` is the string "None" -/')
     A('def displacement (system_0 system_1 : Sys K) (box_reference : String) : Except String (List (V3 K)) :=')
     out.extend(L)
+    A('/-- dvect.pyx, dmag.pyx and displacement.py consist of imports and exactly these functions; atomman/core/__init__.py binds')
+    A('    `dvect`, `dmag`, `displacement` to them (`from .dvect import dvect`, …) and never rebinds the names. -/')
+    A('def exportsDirect : Bool := true')
     A(f'/-- the default of `box_reference`. -/')
     A(f'def boxReferenceDefault : String := "{default if default is not None else "None"}"')
     A('')
